@@ -553,7 +553,7 @@ pub fn stream(rng: &mut Rng, max_len: usize) -> (Vec<u8>, u32) {
             }
             15 => {
                 // what real links put between frames: line ends, other protocols' sync bytes, text
-                const DELIMITERS: [&[u8]; 10] = [b"\r\n", b"\n", b"\r", b"\r\n\r\n", b"$GPGGA,123519,4807.038,N*47\r\n", &[0xB5, 0x62, 0x01, 0x07], &[0x24, 0x40], &[0x10, 0x03], &[0x7E], b"ICY 200 OK\r\n"];
+                const DELIMITERS: [&[u8]; 14] = [b"$GPGGA,", b"$GNRMC,083559.00,A", b"$PUBX,00,", b"$GPGSV,3,1,11,03,03,111,00", b"\r\n", b"\n", b"\r", b"\r\n\r\n", b"$GPGGA,123519,4807.038,N*47\r\n", &[0xB5, 0x62, 0x01, 0x07], &[0x24, 0x40], &[0x10, 0x03], &[0x7E], b"ICY 200 OK\r\n"];
                 s.extend_from_slice(*rng.pick(&DELIMITERS));
                 tags |= 8192;
             }
